@@ -80,6 +80,8 @@ func c08Render(n *c08Node, p int, sp bool) string {
 		return n.Spell
 	case "G":
 		return n.Op + "(" + n.Spell + ")"
+	case "D":
+		return n.S
 	case "neg":
 		return wrap(6 < p, "-"+c08Render(n.A, 6, sp))
 	case "pct":
@@ -106,6 +108,8 @@ func c08TreeEnc(n *c08Node, sb *strings.Builder) {
 		sb.WriteString(n.Kind + ":" + hx(n.S))
 	case "R":
 		sb.WriteString("R:" + hx(n.S) + ":" + hx(n.Spell))
+	case "D":
+		sb.WriteString("D:" + hx(n.S) + ":" + hx(n.Spell))
 	case "G":
 		sb.WriteString("G:" + n.Op + ":" + hx(n.Spell) + ":" + hx(strings.Join(n.Keys, ",")))
 	case "neg", "pct", "par":
@@ -142,6 +146,11 @@ func c08TreeDec(w []string) (*c08Node, []string, bool) {
 		return &c08Node{Kind: "bin", Op: parts[1], A: a, B: b}, r2, ok2 && c08Sym[parts[1]] != ""
 	case "N", "X", "L":
 		return &c08Node{Kind: parts[0], S: c08unhx(parts[1])}, rest, true
+	case "D":
+		if len(parts) < 3 {
+			return nil, nil, false
+		}
+		return &c08Node{Kind: "D", S: c08unhx(parts[1]), Spell: c08unhx(parts[2])}, rest, true
 	case "G":
 		if len(parts) < 4 {
 			return nil, nil, false
@@ -175,6 +184,9 @@ func c08Refs(n *c08Node, m map[string]string) {
 	if n.Kind == "R" {
 		m[n.Spell] = n.S
 	}
+	if n.Kind == "D" {
+		m[n.S] = "@D:" + n.Spell // a defined name used on that sheet: the model does the lookup
+	}
 	c08Refs(n.A, m)
 	c08Refs(n.B, m)
 }
@@ -196,6 +208,10 @@ func c08Tokens(formula string, spell map[string]string) (string, int) {
 			k, ok := spell[t.TValue]
 			if !ok {
 				k = "?" + t.TValue // unknown reference: the model's env has no such key
+			}
+			if strings.HasPrefix(k, "@D:") {
+				out = append(out, "d:"+hx(t.TValue)+":"+hx(k[3:]))
+				continue
 			}
 			out = append(out, "r:"+hx(k))
 		case t.TType == efp.TokenTypeOperatorInfix:
@@ -460,6 +476,7 @@ func c08Bin(op string, a, b c08Val) c08Val {
 }
 
 type c08Eval struct {
+	names   func(name, cur string) ([]string, bool) // reference resolver for defined names
 	agg     func(n *c08Node) c08Val // value of an aggregate leaf (Spec or clean-tree prediction)
 	taint   map[string]string
 	env     map[string]c08Val
@@ -509,6 +526,16 @@ func (ev *c08Eval) eval(n *c08Node) c08Val {
 		return ev.eval(n.A)
 	case "G":
 		return ev.agg(n)
+	case "D":
+		if ev.names != nil {
+			if keys, ok := ev.names(n.S, n.Spell); ok && len(keys) == 1 {
+				if v, ok := ev.env[keys[0]]; ok {
+					return v
+				}
+				return c08Val{K: "blank"}
+			}
+		}
+		return c08Err("#NAME?")
 	case "neg":
 		a := ev.eval(n.A)
 		if n.A.Kind == "neg" {
@@ -570,7 +597,7 @@ func c08ExactExp(n *c08Node, v c08Val) bool {
 
 // peek evaluates without recording deviations
 func (ev *c08Eval) peek(n *c08Node) c08Val {
-	e2 := &c08Eval{env: ev.env, taint: ev.taint, agg: ev.agg}
+	e2 := &c08Eval{env: ev.env, taint: ev.taint, agg: ev.agg, names: ev.names}
 	return e2.eval(n)
 }
 
@@ -685,6 +712,8 @@ func (ev *c08Eval) classify(op string, a, b c08Val) {
 const c08Main = "Z9"
 
 type c08State struct {
+	defs      []c08Def // defined names in creation order (defined-name stream)
+	mainSheet string   // sheet holding the main formula ("" = Sheet1)
 	lastRaw string
 	impl  map[string]string // raw (hook) image of every cell as the evaluator sees it
 	taint map[string]string
@@ -697,6 +726,7 @@ type c08State struct {
 func c08NewState() *c08State {
 	f := xl.NewFile()
 	f.NewSheet("Sheet2")
+	f.NewSheet("Sheet3")
 	return &c08State{f: f, env: map[string]c08Val{}, names: map[string]bool{}, taint: map[string]string{}, impl: map[string]string{}}
 }
 
@@ -831,7 +861,7 @@ func c08Agree(spec c08Val, res, errs string, panicked bool) (bool, bool) {
 
 // exec one formula (main or formula cell); returns the reference value.
 func (st *c08State) formula(r *Run, opname, key string, tree *c08Node, spaced bool) c08Val {
-	sheet, cell := "Sheet1", c08Main
+	sheet, cell := st.main(), c08Main
 	if key != "" {
 		sheet, cell = c08SplitKey(key)
 	}
@@ -844,7 +874,7 @@ func (st *c08State) formula(r *Run, opname, key string, tree *c08Node, spaced bo
 	must(st.f.SetCellFormula(sheet, cell, text))
 	raw := c08Raw(st.f, sheet, cell)
 	st.lastRaw = raw
-	ev := &c08Eval{env: st.env, taint: st.taint}
+	ev := &c08Eval{env: st.env, taint: st.taint, names: st.resolveName}
 	spec := c08Top(ev.eval(tree))
 	res, errs, pan := c08Public(st.f, sheet, cell)
 	op := opname + " " + toks + " | " + tb.String()
@@ -899,7 +929,14 @@ func (st *c08State) formula(r *Run, opname, key string, tree *c08Node, spaced bo
 		if key != "" {
 			st.taint[key] = sig
 		}
-		r.Fail(sig, fmt.Sprintf("=%s: CalcCellValue gives %q err=%q, Excel semantics give %s", text, res, errs, c08Show(spec)), ln, replay)
+		if sig == "unexplained" && c08HasKind(tree, "D") {
+			sig = "defname:resolution"
+		}
+		what := fmt.Sprintf("=%s: CalcCellValue gives %q err=%q, Excel semantics give %s", text, res, errs, c08Show(spec))
+		if c08HasKind(tree, "D") {
+			what = fmt.Sprintf("on %s, names %s: %s", st.main(), st.showDefs(), what)
+		}
+		r.Fail(sig, what, ln, replay)
 	} else if codeDiff {
 		if key != "" {
 			st.taint[key] = "ref:error-not-propagated"
@@ -1378,6 +1415,8 @@ func runC08(r *Run, rng *Rng, replay string) {
 			r.Stat("stream:malformed")
 		}
 	}
+	// 5b. defined names at workbook / sheet scope in every creation order (own workbooks)
+	c08DnStream(r, rng)
 	// 6. aggregates over generated ranges (own workbooks)
 	c08AggStream(r, rng)
 	r.Samples = r.opsSample(10)
@@ -1442,6 +1481,14 @@ func c08Replay(r *Run, path string) {
 		case "ev":
 			if t := treeOf(w); t != nil {
 				st.formula(r, "ev", "", t, false)
+			}
+		case "main":
+			if len(w) > 1 {
+				st.setMain(r, c08unhx(w[1]))
+			}
+		case "defname":
+			if len(w) > 3 {
+				st.defineName(r, c08unhx(w[1]), c08unhx(w[2]), strings.Split(c08unhx(w[3]), ","))
 			}
 		case "agg", "evx":
 			if t := treeOf(w); t != nil {
